@@ -451,6 +451,10 @@ def run(P, R, L):
     K.grd14_manual_inputs(P, R, L, parts=("nonempty",))
     R.clause("GRD-16", "a compaction is done as a trivial move only when it has a single input file and no overlapping parent-level file")
     K.grd16_trivial_move(P, R, L)
+    R.clause("PAIR-9", "compaction inputs are expanded by their boundary files before the key range that selects the parent-level inputs is computed "
+             "(otherwise the output overlaps a remaining parent-level file: the version builder's assertion kills the compaction thread)")
+    K.pair9_boundary_inputs(P, R, L)
+    K.pair9_levels(P, R, L)
     R.not_decided += ["that the background thread never panics (value-level reachability of unwrap/assert/index sites)",
                       "progress of data-dependent loops", "channel capacity / blocking send in schedule_task"]
     R.assumptions += ["one Mutex<GuardedDbFields> instance per database (class-level = instance-level)",
